@@ -1197,3 +1197,45 @@ def param_index_ty(fn, name, idx, ty):
             return i
     hits = [i for i in range(1, fn.nargs + 1) if re.search(ty, str(fn.locals[i]))]
     return hits[0] if len(hits) == 1 else idx
+
+
+def bool_switches_on_call(fn, call_site):
+    """Boolean switches on the (possibly negated, possibly named) result of call_site: [(block, target_if_result_true, target_if_false)]."""
+    out = []
+    for b in range(len(fn.blocks)):
+        t = fn.blocks[b]['t']
+        if t[0] != 'switch':
+            continue
+        arms = bool_switch_arms(fn, b)
+        if arms is None:
+            continue
+        tt, ff = arms
+        p = fn.prov_operand(t[1])
+        neg = False
+        hops = 0
+        while p.root[0] == 'expr' and p.root[1][0] == 'un' and p.root[1][1] == 'Not' and hops < 3:
+            p = fn.prov_operand(p.root[1][2])
+            neg = not neg
+            hops += 1
+        if p.root[0] == 'call' and p.root[1].key() == call_site.key() and not p.path:
+            out.append((b, ff, tt) if neg else (b, tt, ff))
+    return out
+
+
+def slot_loops_cover_all_slots(R, F, fn_pat, floor, why):
+    """`for i in 0..END { if let Some(x) = container.get(i) .. }` over a SPARSE slot container (connection tables keep empty slots and
+    reuse them): END derives from the container's own len()/capacity().  A bound taken from a count of live entries skips every entry
+    whose slot index is not below that count - as soon as an older entry left, a younger one is never visited again."""
+    n = 0
+    for f in F.find_fns(fn_pat):
+        for c in f.calls(r'^iceoryx2::.*::(get|get_mut)$'):
+            if len(c.args) != 2:
+                continue
+            o = origins(f, c.args[1], depth=10)
+            if not any(re.search(r'range::.*Range<.*>>::next$|Range<A>>::next$', x) for x in o):
+                continue
+            pre = c.callee.rsplit('::', 1)[0] + '::'
+            ok = any(x.startswith(pre) and re.search(r'::(len|capacity)$', x) for x in o)
+            n += 1
+            R.ob('LOOP', 'LOOP::%s::index-range-covers-every-slot' % fnkey(f), ok, '%s(i): the range of i %s; %s' % (core.short(c.callee), 'ends at the container\'s len()/capacity()' if ok else 'does NOT derive from %slen()/capacity() (origins: %s)' % (core.short(pre), sorted(core.short(x) for x in o if not x.startswith(('arg:', 'field:')))[:5]), why), c.where, f)
+    R.floor('index loops over slot containers (%s)' % fn_pat[:40], n, floor)
